@@ -315,6 +315,7 @@ type Program struct {
 	Vars map[string]any `json:"vars"`
 	Desc string         `json:"desc"`
 	Tags []string       `json:"tags,omitempty"`
+	Objs map[string]any `json:"objs,omitempty"`
 }
 
 // GenProgram draws a block-structured process.
